@@ -37,3 +37,34 @@ for area, title in [('UefiTotal', 'fault sites of the parsers (pkg/uefi)'), ('Ue
 out.append('end Fiano.Uefi.TotalTie\n')
 open(p, 'w').write(head + '\n'.join(out))
 print("TotalTie.lean regenerated")
+
+# follow-up wp-c05b: the inventories behind TotalAsm.lean / TotalNvarWalk.lean / blockMapEnd (TotalAsmTie.lean);
+# only the part after its marker "/-! ### pkg/uefi" is rewritten
+p2 = os.path.join(lean, "FianoModel/Uefi/TotalAsmTie.lean")
+if os.path.exists(p2):
+    s2 = open(p2).read()
+    marker2 = "/-! ### pkg/uefi"
+    head2 = s2[:s2.index(marker2)]
+    out = []
+    for area, title in [('UefiTotalAsm', 'pkg/uefi: the functions Assemble calls, and the visitor plumbing of NVAR / ME nodes'),
+                        ('UefiTotalAsmVisitors', 'pkg/visitors: guards of Assemble.Visit / Extract.Visit / Validate.Visit, blockMapEnd')]:
+        src = open(os.path.join(lean, f'FianoModel/Gen/{area}.lean')).read()
+        out.append(f'/-! ### {title} -/\n')
+        for m in re.finditer(r'def (\w+) : List String := (\[.*?\])\n\n', src, re.S):
+            name, val = m.group(1), m.group(2)
+            items = re.findall(r'"(?:[^"\\]|\\.)*"', val)
+            if not items:
+                out.append(f'theorem {name} : Gen.{area}.{name} = [] := rfl\n')
+                continue
+            lines, cur = [], '    ['
+            for i, it in enumerate(items):
+                piece = it + (', ' if i < len(items) - 1 else ']')
+                if len(cur) + len(piece) > 110:
+                    lines.append(cur.rstrip()); cur = '     '
+                cur += piece
+            lines.append(cur)
+            out.append(f'theorem {name} : Gen.{area}.{name} =\n' + '\n'.join(lines) + ' := rfl\n')
+        out.append('')
+    out.append('end Fiano.Uefi.TotalAsmTie\n')
+    open(p2, 'w').write(head2 + '\n'.join(out))
+    print("TotalAsmTie.lean regenerated")
